@@ -21,6 +21,18 @@ import VotelibProofs.Lemmas.ConvertScore
 namespace VL.C13
 open VL VL.Convert
 
+/-! ## reading a result dict -/
+
+/-- for a genuine dict (distinct keys — every `…_is_dict` theorem below) `toFun` is Python's `d.get(k, 0)` -/
+theorem toFun_is_lookup {κ : Type} [DecidableEq κ] (d : Dict κ) (h : (dkeys d).Nodup) (k : κ) :
+    (∀ v, (k, v) ∈ d → toFun d k = v) ∧ (k ∉ dkeys d → toFun d k = 0) :=
+  ⟨fun _ hm => toFun_eq_of_mem h hm, toFun_eq_zero_of_not_mem⟩
+
+/-- the dict `A + B` of two profiles is a dict, and as a function it is the sum -/
+theorem mergeDict_is_sum {κ : Type} [DecidableEq κ] (p₁ p₂ : Dict κ) (k : κ) :
+    (dkeys (mergeDict (p₁ ++ p₂))).Nodup ∧ toFun (mergeDict (p₁ ++ p₂)) k = toFun p₁ k + toFun p₂ k :=
+  ⟨nodup_mergeDict _, by rw [toFun_mergeDict, toFun_append]⟩
+
 /-! ## RankedToFirstPreference -/
 
 theorem firstPreference_eq_accum : rankedToFirstPreference = accumOne (fun b : Ballot => b.head?) := by
@@ -1117,6 +1129,9 @@ example : PartyOK (affOf [(0, 7), (1, 7), (2, 8)]) .error [(0, 3), (1, 4), (2, 5
   rcases hcw with rfl | rfl | rfl <;> decide
 example : individualToParty (affOf [(0, 7), (1, 7)]) .aggregate [(0, 3), (1, 4), (2, 5)]
     = .ok [(.party 7, 7), (.none, 5)] := by decide +kernel
+
+example : groupByParty (affOf [(0, 7), (1, 7)]) .keep [(0, 3), (1, 4), (2, 5)]
+    = .ok [(.party 7, [(0, 3), (1, 4)]), (.indep 2, [(2, 5)])] := by decide +kernel
 
 example : scoreToRanked (some 0) [([(0, 1), (1, 1), (2, 3)], 2), ([(3, 2)], 1)]
     = [([.one 2, .shared [0, 1], .one 3], 2), ([.one 3, .shared [0, 1, 2]], 1)] := by decide +kernel
